@@ -540,7 +540,8 @@ def step (H : Hashes) (dirLen : Nat) (s : State) : Op → State × Resp
       if sideTooLong b k true then (s, .err .InternalError)
       else ({ s1 with upMetas := alInsert (b, k, id) m s1.upMetas }, .created id)
   | .uploadPart who _b _k u n c =>
-    if n > 10000 then (s, .err .InvalidArgument)
+    -- 531fc88: `!(1..=10_000).contains(&part_number)`
+    if n < 1 ∨ n > 10000 then (s, .err .InvalidArgument)
     else match u with
       | none => (s, .err .NoSuchUpload)                           -- not a UUID: no such upload
       | some id =>
@@ -548,6 +549,9 @@ def step (H : Hashes) (dirLen : Nat) (s : State) : Op → State × Resp
         | some e => (s, .err e)
         | none => ({ s with parts := alInsert (id, n) c s.parts }, .part (some (etagOf H c)))
   | .uploadPartCopy who _b _k u n sb sk range =>
+    -- 531fc88: the part number is checked first, as in `upload_part`
+    if n < 1 ∨ n > 10000 then (s, .err .InvalidArgument)
+    else
     match u with
     | none => (s, .err .NoSuchUpload)
     | some id =>
